@@ -42,6 +42,7 @@ theorem inv_step (s s' : St) (a : Actor) (e : Env) (h : Inv s) (hs : step s a e 
     | wtake k b => exact inv_wtake n sh fpc pcs t e k b hlt h hpc sh' pc' hts
     | ptake => exact inv_ptake n sh fpc pcs t e hlt h hpc sh' pc' hts
     | panictake => exact inv_panictake n sh fpc pcs t e hlt h hpc sh' pc' hts
+    | unwound => simp [jstep] at hts
 
 theorem inv_run (s : St) (sched : List (Actor × Env)) (h : Inv s) : Inv (run s sched) := by
   induction sched generalizing s with
@@ -80,8 +81,8 @@ theorem run_n (s : St) (l : List (Actor × Env)) : (run s l).n = s.n := by
 
 /-- once the finishing side is done, a joiner that is parked without its token stays so -/
 theorem stuck_step (s s' : St) (a : Actor) (e : Env) (t : Tid) (k : K) (b : Bid) (hs : step s a e = some s')
-    (hf : s.fpc = .done) (hp : s.pcs t = .wpark k b) (ht : s.sh.tok b = false) :
-    s'.fpc = .done ∧ s'.pcs t = .wpark k b ∧ s'.sh.tok b = false := by
+    (hf : s.fpc = .done) (hp : s.pcs t = .wpark k b ∨ s.pcs t = .unwound) (ht : s.sh.tok b = false) :
+    s'.fpc = .done ∧ (s'.pcs t = .wpark k b ∨ s'.pcs t = .unwound) ∧ s'.sh.tok b = false := by
   obtain ⟨n, sh, fpc, pcs⟩ := s
   simp only at hf hp ht
   subst hf
@@ -96,8 +97,13 @@ theorem stuck_step (s s' : St) (a : Actor) (e : Env) (t : Tid) (k : K) (b : Bid)
     subst hs
     by_cases hut : u = t
     · subst hut
-      rw [hp] at hts
-      simp [jstep, ht] at hts
+      rcases hp with hp | hp
+      · rw [hp] at hts
+        cases e <;> simp [jstep, ht] at hts
+        obtain ⟨rfl, rfl⟩ := hts
+        simp [upd, ht]
+      · rw [hp] at hts
+        simp [jstep] at hts
     · generalize pcs u = pc at hts
       cases pc <;> cases e <;> simp only [jstep] at hts <;> (try contradiction) <;> (repeat' split at hts) <;>
         (try contradiction) <;> (try simp only [Option.some.injEq, Prod.mk.injEq] at hts) <;>
